@@ -87,6 +87,12 @@ def build_corpus(tier, rng):
                 if dm_kind == 4 and rp is None and any(d < 0 for d in ds):
                     continue        # FromRepr on the generated type uses usize when there is no repr
                 items.append(("systematic", it))
+    # several hints, in one #[repr] attribute or in several: ALL of them belong to the generated enum
+    for rp, form in (("u8", ["u8", "align(4)"]), ("u8", ["align(4)", "u8"]), ("i16", ["i16, align(8)"]), ("u32", ["align(2)", "u32"]), ("i8", ["i8", "align(2)"])):
+        it = Item("E", [Variant("A", "tuple", [Field("u8")], discr=3), Variant("B", "unit"), Variant("C", "named", [Field("i32", "a")], discr=(-2 if rp[0] == "i" else 9)), Variant("D", "unit")],
+                  repr=rp)
+        it.repr_form = form
+        items.append(("repr-forms", it))
     # non-integer repr hints are copied too: #[repr(C)] (layout observable through size_of / align_of)
     for nv in (1, 3, 5):
         items.append(("repr-c", Item("E", [Variant(names[i], "unit") for i in range(nv)], repr="C")))
@@ -160,7 +166,8 @@ def render_def(k, it, meta, cfg):
     inner.append("pub fn dval(d: %s) -> i128 { d as i128 }" % dname)
     if it.variants:
         refvs = ", ".join("%s%s" % (v.ident, (" = %s" % (v.discr_expr or v.discr)) if v.discr is not None else "") for v in it.variants)
-        inner.append("%s#[derive(Clone, Copy)] pub enum HarnessRef { %s }" % (("#[repr(%s)] " % it.repr) if it.repr else "", refvs))
+        hints = ", ".join(it.repr_form) if it.repr_form else it.repr
+        inner.append("%s#[derive(Clone, Copy)] pub enum HarnessRef { %s }" % (("#[repr(%s)] " % hints) if hints else "", refvs))
         inner.append("pub fn layout() -> String { format!(\"{}/{},{}/{}\", std::mem::size_of::<%s>(), std::mem::size_of::<HarnessRef>(), std::mem::align_of::<%s>(), std::mem::align_of::<HarnessRef>()) }" % (dname, dname))
     else:
         inner.append("pub fn layout() -> String { \"0/0,1/1\".to_string() }")
